@@ -209,7 +209,76 @@ def plan(tier, seed):
     jobs = []
     for name in sorted(lib):
         jobs.append(dict(target=name))
+    jobs.append(dict(target='*netcdf-host'))
+    jobs.append(dict(target='*relative-paths'))
     return jobs
+
+
+NC_LIBS = ('mpilot.libraries.eems.basic', 'mpilot.libraries.eems.netcdf', 'mpilot.libraries.eems.fuzzy')
+
+
+def special_harness(ctx, cfg):
+    """(a) the NetCDF library set: the fuzzy / non-fuzzy discipline with the NetCDF reader as producer;
+    (b) relative paths under every form of working directory the API and the CLI produce"""
+    import numpy
+    E = sys.modules['mpilot.exceptions']
+    from mpilot.program import Program
+    obs, groups = [], {}
+    if cfg['target'] == '*netcdf-host':
+        from netCDF4 import Dataset
+        path = os.path.join(P.SCRATCH, 'c12-%d.nc' % os.getpid())
+        with Dataset(path, 'w') as ds:
+            ds.createDimension('x', 3)
+            v = ds.createVariable('v', 'f8', ('x',))
+            v[:] = numpy.array([0.5, -0.25, 1.0])
+        lib = Program(libraries=NC_LIBS).command_library
+        for c in lib.values():
+            wrap(c)
+        scen = ctx.choice('scenario', 6)
+        dt = ['', ', DataType = "Fuzzy"', ', DataType = "Float"'][ctx.choice('datatype', 3)]
+        host = 'A = EEMSRead(InFileName = "%s", InFieldName = v%s)\nF = CvtToFuzzy(InFieldName = A, TrueThreshold = 1, FalseThreshold = -1)\n' % (path, dt)
+        tail, want = [('T = FuzzyNot(InFieldName = A)', {'ResultNotFuzzy'}), ('T = Copy(InFieldName = A)', None), ('T = FuzzyOr(InFieldNames = [F, A])', {'ResultNotFuzzy'}),
+                      ('T = AMinusB(A = A, B = F)', {'ResultIsFuzzy'}), ('T = CvtFromFuzzy(InFieldName = A, TrueThreshold = 2, FalseThreshold = 0)', {'ResultNotFuzzy'}),
+                      ('T = FuzzyAnd(InFieldNames = [F, F])', None)][scen]
+        src = (tail + '\n' + host) if ctx.choice('position', 2) == 0 else (host + tail + '\n')
+        del RECORD[:]
+        try:
+            Program.from_source(src, libraries=NC_LIBS).run()
+            oc = 'accepted'
+        except E.MPilotError as e:
+            oc = ('late:' if RECORD else 'rejected:') + type(e).__name__
+        except Exception as e:      # noqa: B902
+            oc = 'escaped:' + type(e).__name__
+        lab = 'NetCDF host, %s: %s (%s)' % (tail, 'accepted' if want is None else 'rejected with ' + '/'.join(want), oc)
+        obs.append((lab, z3.BoolVal(oc == 'accepted' if want is None else (oc.startswith('rejected:') and oc.split(':')[1] in want))))
+        groups[lab] = 'netcdf-host ' + ('rejected-wellformed' if want is None else 'accepted-illformed')
+        rec = {'target': cfg['target'], 'source': src, 'outcome': oc}
+    else:
+        wdk = ctx.choice('working_dir', 5)
+        d = P.SCRATCH
+        wd = [None, '', '.', d, os.path.join(d, '')][wdk]
+        rel = ctx.choice('relative', 2)
+        fname = 'c12-data.csv' if rel else DATA
+        src = 'A = EEMSRead(InFileName = "%s", InFieldName = A)\nT = Copy(InFieldName = A)\n' % fname
+        old = os.getcwd()
+        os.chdir(d)
+        del RECORD[:]
+        try:
+            try:
+                Program.from_source(src, libraries=LIBS, working_dir=wd).run()
+                oc = 'accepted'
+            except E.MPilotError as e:
+                oc = ('late:' if RECORD else 'rejected:') + type(e).__name__
+            except Exception as e:      # noqa: B902
+                oc = 'escaped:' + type(e).__name__
+        finally:
+            os.chdir(old)
+        want = {'InvalidRelativePath'} if (rel and wd is None) else None
+        lab = 'a %s path with working directory %r: %s (%s)' % ('relative' if rel else 'absolute', wd, 'accepted' if want is None else 'InvalidRelativePath', oc)
+        obs.append((lab, z3.BoolVal(oc == 'accepted' if want is None else oc == 'rejected:InvalidRelativePath')))
+        groups[lab] = 'working-directory ' + ('rejected-wellformed' if want is None else 'accepted-illformed')
+        rec = {'target': cfg['target'], 'source': src, 'working_dir': wd, 'outcome': oc}
+    return {'outcome': oc, 'obligations': obs, 'groups': groups, 'replay': rec, 'validated': True}
 
 
 def build_host(program, lib, target_cls, target_args, position, extra=None):
@@ -268,6 +337,8 @@ VALIDATION = {'CommandDoesNotExist', 'DuplicateResult', 'MissingParameters', 'No
 
 
 def harness(ctx, cfg):
+    if cfg['target'].startswith('*'):
+        return special_harness(ctx, cfg)
     lib = library()
     for c in lib.values():
         wrap(c)
@@ -368,6 +439,8 @@ def path_check(rec, oc):
 
 
 def confirm(rec, label):
+    if rec.get('target', '').startswith('*'):
+        return True, 'the explored path executed the real loader: %s' % rec.get('outcome')
     oc, detail = concrete_attempt(rec)
     want = rec.get('want')
     bad = oc.startswith('late:') or oc.startswith('escaped:')
